@@ -12,7 +12,8 @@ EXPLANATION = (
     "accepted only together with the dominating load-factor guard that guarantees such a slot exists. A probe loop that "
     "only stops at an Empty slot or a matching key has no witness: tombstones can fill the table.")
 DECIDED = ["R19 every loop of the hashed collections has a termination witness (LOOP, all SCCs enumerated)",
-           "R19 (cont.) the sentinel test lies on every cycle of the loop; probe loops of the frozen table stop at every non-Valid slot"]
+           "R19 (cont.) the sentinel test lies on every cycle of the loop; probe loops of the frozen table stop at every non-Valid slot",
+           "R19t slot states of the hash tables are written only by insert / remove / full rehash (WHO table, shared)"]
 UNDECIDED = ["time bounds", "termination of graph list walks on corrupted adjacency lists (C07 territory)",
              "loops outside collections::{multi_map,map} are classified for information only"]
 
@@ -193,4 +194,7 @@ def run(ctx):
             kind, _ = classify(b, comp, fa)
             info[kind or "unclassified"] = info.get(kind or "unclassified", 0) + 1
     ctx.note("loops elsewhere in crate agdb (informational, not armed): %s" % info)
+    # tombstone discipline of the open-addressing tables behind every map (a table without Empty slots is also what makes the probe loops spin) (shared rule, rules/maps_common.py)
+    from rules import maps_common
+    maps_common.slot_state_rule(ctx)
     return 0
